@@ -408,6 +408,9 @@ func (s *Sim) autoClaims(st *Step) {
 	if st.Action == "mistype" || st.Action == "shift-height" {
 		s.reissuePending(st.Action, before)
 	}
+	if st.Action == "early-proof" {
+		s.earlyProofs()
+	}
 	s.res.Fault("auto_claim_proof_pass")
 	s.res.ProbeN("own_txs_broadcast", len(n.Tm.Mempool)-before)
 }
@@ -732,6 +735,17 @@ func (s *Sim) checkProofTx(b *blockObs, m pc.MsgProof, r abci.ResponseDeliverTx,
 			}
 		}
 	}
+	// ---- C31: no proof is accepted before the block exists whose hash selects the leaf
+	if start := s.viewAt(header.SessionBlockHeight); start != nil {
+		bps, _ := start.ParamInt("pos/BlocksPerSession")
+		window, _ := start.ParamInt("pocketcore/ClaimSubmissionWindow")
+		if ph := header.SessionBlockHeight + window*bps; h < ph {
+			s.res.Probe("proof_delivered_before_the_proof_height")
+			if r.Code == 0 || minted.IsPositive() {
+				s.violate("C31", "proof-accepted-before-the-selecting-block-exists", "proof", fmt.Sprintf("height %d: a proof by %s for session height %d returned code %d and minted %s; the leaf is to be selected by the hash of block %d, which does not exist yet (the leaf proven, %d, is one the servicer could choose)", h, servicer, header.SessionBlockHeight, r.Code, minted, ph-1, m.MerkleProof.TargetIndex))
+			}
+		}
+	}
 	if forged != "" {
 		s.res.Probe("forged_proof_delivered")
 		s.res.Case("forged-proof/" + forged)
@@ -824,7 +838,14 @@ func (s *Sim) selectedLeaf(header pc.SessionHeader, total int64) (int64, bool) {
 	}
 	bps, _ := start.ParamInt("pos/BlocksPerSession")
 	window, _ := start.ParamInt("pocketcore/ClaimSubmissionWindow")
-	entropy := header.SessionBlockHeight + window*bps - 1 // the block whose hash selects
+	return s.leafSelectedBy(header, total, header.SessionBlockHeight+window*bps-1) // the block whose hash selects
+}
+
+// leafSelectedBy: the leaf index the selection function yields from the hash of block entropy.
+func (s *Sim) leafSelectedBy(header pc.SessionHeader, total int64, entropy int64) (int64, bool) {
+	if total <= 0 {
+		return 0, false
+	}
 	var hash []byte
 	for _, spec := range s.drv.Log {
 		if spec.Height == entropy {
@@ -1150,6 +1171,63 @@ func (s *Sim) reissuePending(kind string, from int) {
 		}
 		n.Tm.Mempool = append(n.Tm.Mempool, bz)
 		s.res.Fault("reissued_" + strings.ReplaceAll(kind, "-", "_"))
+	}
+}
+
+// earlyProofs (C31): a servicer of this process does not wait for the proof height. For each of its
+// pending claims it proves, in the next block, the leaf that the hash of the CURRENT tip selects
+// (a hash it knows). The network must refuse a proof until the selecting block exists.
+func (s *Sim) earlyProofs() {
+	v := s.committedView
+	if v == nil {
+		return
+	}
+	h := s.drv.Height
+	keys := make([]string, 0, len(v.Claims))
+	for k := range v.Claims {
+		keys = append(keys, k)
+	}
+	sort.Strings(keys)
+	made := 0
+	for _, ck := range keys {
+		c := v.Claims[ck]
+		pn, local := pc.GlobalPocketNodes[c.FromAddress.String()]
+		idx := s.keyIndexOf(c.FromAddress.String())
+		start := s.viewAt(c.SessionHeader.SessionBlockHeight)
+		if !local || idx < 0 || start == nil || c.EvidenceType != pc.RelayEvidence || made >= 2 {
+			continue
+		}
+		bps, _ := start.ParamInt("pos/BlocksPerSession")
+		window, _ := start.ParamInt("pocketcore/ClaimSubmissionWindow")
+		if h+1 >= c.SessionHeader.SessionBlockHeight+window*bps {
+			continue // no longer early
+		}
+		leafIdx, ok := s.leafSelectedBy(c.SessionHeader, c.TotalProofs, h)
+		if !ok {
+			continue
+		}
+		ev, err := pc.GetEvidence(c.SessionHeader, pc.RelayEvidence, sdk.NewInt(c.TotalProofs), pn.EvidenceStore)
+		if err != nil || int64(len(ev.Proofs)) < c.TotalProofs {
+			continue
+		}
+		mp, leaf := ev.GenerateMerkleProof(c.SessionHeader.SessionBlockHeight, int(leafIdx), c.TotalProofs)
+		m := pc.MsgProof{MerkleProof: mp, Leaf: leaf, EvidenceType: pc.RelayEvidence}
+		priv := KeyFor(s.cfg.KeySeed, idx)
+		fee := sdk.NewCoins(sdk.NewCoin(sdk.DefaultStakeDenom, sdk.NewInt(baseFee)))
+		s.relayEntropy++
+		signBytes, serr := auth.StdSignBytes(ChainID, s.relayEntropy, fee, &m, "")
+		if serr != nil {
+			continue
+		}
+		sig, _ := priv.Sign(signBytes)
+		tx := authTypes.NewTx(&m, fee, authTypes.StdSignature{Signature: sig, PublicKey: priv.PublicKey()}, "", s.relayEntropy)
+		bz, eerr := auth.DefaultTxEncoder(app.Codec())(tx, -1)
+		if eerr != nil {
+			continue
+		}
+		s.node.Tm.Mempool = append(s.node.Tm.Mempool, bz)
+		s.res.Fault("proof_sent_before_the_proof_height")
+		made++
 	}
 }
 
